@@ -22,7 +22,7 @@ ASSUME = [
     "up to 3 substream opens; timers and the loop exit are urgent",
 ]
 
-MC_LINES = ["SPECIFICATION Spec", "INVARIANTS MonOK NotWhileBusy ClosedAtHorizon", "VIEW View", "CHECK_DEADLOCK FALSE"]
+MC_LINES = ["SPECIFICATION Spec", "INVARIANTS MonOK NotWhileBusy ClosedAtHorizon ActiveTracked", "VIEW View", "CHECK_DEADLOCK FALSE"]
 BASE = {"K": {"k"}, "N": {"n"}, "TT": 2, "Horizon": 9, "MaxSub": 3, "Mutant": ""}
 TS = (150, 400, 1000)
 
@@ -54,7 +54,8 @@ def generate(ctx):
             seen.add(key)
             out.append((sched, any(s.get("q") == "n" for s in b["stims"])))
     st["schedules"] = len(out)
-    return out, st
+    st["behaviours_raw"] = len(behs)
+    return out, st, behs
 
 
 def to_sched(stims):
@@ -120,6 +121,41 @@ def networks(ctx, gen):
     return out
 
 
+def unit_part(ctx, behs):
+    """handle discipline of the real TransportService (ServiceHarness, scripted time): every TLC behaviour (incl. opens
+    refused with ChannelClogged, expiries, opened/failed/inbound substreams) and seeded random histories over two
+    connections and three protocols; TLC validates the projections against KeepAlive.tla Part 2"""
+    write_jsonl(ctx.path("ubehs.jsonl"), [{"stims": b["stims"]} for b in behs])
+    nrand, rlen = (600, 40) if ctx.quick() else (6000, 60)
+    summ, _ = harness(ctx, "kasvc", ["--behaviours", ctx.path("ubehs.jsonl"), "--random", nrand, "--len", rlen, "--seed", ctx.seed,
+                                     "--out", ctx.path("unit.ndjson")], timeout=1800)
+    log("UNIT: %s" % summ)
+    if summ["model_projection_mismatches"]:
+        log("NOTE drift: the real TransportService deviates from KeepAliveMC's expected handle/tracker projection in %d steps, e.g. %s"
+            % (summ["model_projection_mismatches"], summ["drift_samples"][:2]))
+    lines = read_lines(ctx.path("unit.ndjson"))
+    nseg, nev, rejects = validate_all(ctx, "KeepAliveSvcTrace.tla", "KeepAliveSvcTrace.cfg", lines, tag="u")
+    viol = []
+    for r in rejects:
+        seg, idx = r
+        if r.reason == "unconsumed":
+            raise ToolError("unit trace line could not be consumed: %s" % seg[idx - 1][:300])
+        ev = json.loads(seg[idx - 1])
+        # the step that made the handle Active without tracking: the last activity-like step of that key
+        prev = [json.loads(x) for x in seg[1:idx - 1]]
+        cause = next((e["a"] + ("" if e.get("ok") else "-refused") for e in reversed(prev)
+                      if e.get("key") == ev.get("key") and e["a"] in ("open", "clog", "opened", "inbound", "failed")), "none")
+        sig = "unit:%s@after-%s" % (r.reason.replace(" ", "-"), cause)
+        viol.append({"sig": sig, "what": "%s (real TransportService, %s execution %s) at %s" % (r.reason, json.loads(seg[0]).get("kind"), json.loads(seg[0]).get("i"), seg[idx - 1][:300]),
+                     "replay_obj": {"property": "C09", "level": "unit", "reason": r.reason, "signature": sig, "segment": [json.loads(x) for x in seg[:idx]]}})
+    acts = {}
+    for ln in lines:
+        if '"e":"u"' in ln:
+            a = json.loads(ln)["a"]
+            acts[a] = acts.get(a, 0) + 1
+    return {"executions_validated": nseg, "events_validated": nev, "harness": summ, "steps_by_kind": acts}, viol
+
+
 def classify(seg, idx, reason):
     head = json.loads(seg[0])
     name = head.get("sc", "?")
@@ -137,16 +173,17 @@ def run_net(ctx, nets, tag="net", strict=False):
 
 def check(ctx):
     mc = mc_runs(ctx)
-    gen, gstats = generate(ctx)
+    gen, gstats, behs = generate(ctx)
     log("GEN %s" % {k: gstats[k] for k in gstats if k != "out"})
-    build_s = cargo_build(ctx, ["keepalive"])
+    build_s = cargo_build(ctx, ["keepalive", "kasvc"])
+    unit, uviol = unit_part(ctx, behs)
     nets = networks(ctx, gen)
     summ, lines = run_net(ctx, nets)
     log("HARNESS: %s (build %ss, %d networks submitted)" % (summ, build_s, len(nets)))
     if summ["networks_judged"] < 0.8 * len(nets):
         raise ToolError("too many networks were not judged (%d of %d): %s" % (summ["networks_judged"], len(nets), summ["inconclusive_reasons"]))
     nseg, nev, rejects = validate_all(ctx, "KeepAliveTrace.tla", "KeepAliveTrace.cfg", lines)
-    violations = []
+    violations = list(uviol)
     for r in rejects:
         seg, idx = r
         if r.reason == "unconsumed":
@@ -166,6 +203,10 @@ def check(ctx):
             "(it closes at once when T has passed since the last open); not judged, see ASSUME" % strict_n)
     cov = evidence(mc, gstats, summ, nets, lines, nseg, nev)
     cov["strict_reading"] = {"networks_closing_less_than_T_after_last_drop": strict_n}
+    cov["unit_level"] = unit
+    cov["traces_validated_against_impl"] += unit["executions_validated"]
+    cov["events_validated"] += unit["events_validated"]
+    cov["impl_divergences"] = unit["harness"]["model_projection_mismatches"]
     return conclude(ctx, "model_checking", cov, violations, ASSUME)
 
 
@@ -227,6 +268,10 @@ def evidence(mc, gstats, summ, nets, lines, nseg, nev):
 def replay(ctx, path):
     obj = json.load(open(path))
     seg = [json.dumps(x, separators=(",", ":")) for x in obj["segment"]]
+    if obj.get("level") == "unit":
+        _, _, rej = validate_all(ctx, "KeepAliveSvcTrace.tla", "KeepAliveSvcTrace.cfg", seg)
+        log("replay recorded unit-level segment: %s" % ("; ".join("line %d: %s" % (r[1], r.reason) for r in rej) if rej else "accepted"))
+        return 1 if rej else 0
     _, _, rej = validate_all(ctx, "KeepAliveTrace.tla", "KeepAliveTrace.cfg", seg)
     log("replay recorded segment: %s" % ("; ".join("line %d: %s" % (r[1], r.reason) for r in rej) if rej else "accepted"))
     rc = 1 if rej else 0
@@ -243,7 +288,8 @@ def replay(ctx, path):
 
 def selftest(ctx):
     ok = True
-    for name, mut, expect in [("ping-holds-permit", "ping-holds-permit", "MonOK"), ("permit-leak", "permit-leak", "MonOK"), ("no-rearm", "no-rearm", "MonOK")]:
+    for name, mut, expect in [("ping-holds-permit", "ping-holds-permit", "MonOK"), ("permit-leak", "permit-leak", "MonOK"), ("no-rearm", "no-rearm", "MonOK"),
+                              ("activity-after-send", "activity-after-send", "ActiveTracked")]:
         r = tlc_mc(ctx, "KeepAliveMC.tla", write_cfg(ctx, "neg_%s.cfg" % name, dict(BASE, MaxSub=2, Mutant=mut), MC_LINES), workers=4, expect_violation=True, timeout=600)
         hit = ("%s is violated" % expect) in r["out"]
         log("selftest model %s -> %s" % (name, "violates %s as required" % expect if hit else "NOT DETECTED"))
@@ -272,6 +318,26 @@ def selftest(ctx):
     corrupt("close 3 s later", lambda e: e["e"] == "closed", lambda e: [dict(e, t=e["t"] + 3000)])
     corrupt("close never observed (still open 3 s later)", lambda e: e["e"] == "closed", lambda e: [{"e": "check", "s": e["s"], "t": e["t"] + 3000}])
     corrupt("close while the substream is held", lambda e: e["e"] == "drop_begin", lambda e: [{"e": "closed", "s": e["s"], "t": e["t"], "by": "self"}, e])
+    # unit level: a good execution with one projection corrupted (a handle that stays Active through the expiries)
+    cargo_build(ctx, ["kasvc"])
+    harness(ctx, "kasvc", ["--random", 20, "--len", 30, "--seed", ctx.seed, "--out", ctx.path("ust.ndjson")])
+    ul = read_lines(ctx.path("ust.ndjson"))
+    _, _, urej = validate_all(ctx, "KeepAliveSvcTrace.tla", "KeepAliveSvcTrace.cfg", ul, tag="u")
+    ok &= not urej
+    seg0 = split_segments(ul, lambda ln: '"e":"reset"' in ln)[0]
+    mut = []
+    for ln in seg0:
+        e = json.loads(ln)
+        if e.get("a") in ("expire", "final"):
+            for x in e["proj"]:
+                if x["k"] == "k:1":
+                    x["act"] = True
+            if e["a"] == "final":
+                e["closed"] = False
+        mut.append(json.dumps(e, separators=(",", ":")))
+    _, _, urj = validate_all(ctx, "KeepAliveSvcTrace.tla", "KeepAliveSvcTrace.cfg", mut, tag="u")
+    log("selftest corrupt (unit): handle k:1 stays Active through every expiry -> %s" % ("rejected: %s" % urj[0].reason if urj else "ACCEPTED"))
+    ok &= bool(urj)
     os.environ["VERIF_FAULT"] = "early_close"
     try:
         s2, l2 = run_net(ctx, nets[:1], tag="f")
